@@ -2005,6 +2005,9 @@ void janet_loop1_impl(int has_timeout, JanetTimestamp timeout) {
     if (janet_vm.timer_enabled || has_timeout) {
         memset(&its, 0, sizeof(its));
         if (has_timeout) {
+            /* An all-zero value disarms the timer and a negative one is refused, and either way epoll_wait
+             * below would never return. A deadline at or before 0 is simply in the past. */
+            if (timeout < 1) timeout = 1;
             its.it_value.tv_sec = timeout / 1000;
             its.it_value.tv_nsec = (timeout % 1000) * 1000000;
         }
